@@ -60,6 +60,25 @@ ASSUME \A c \in {<<"P256", "SHA256">>, <<"P384", "SHA384">>, <<"P384", "SHA512">
          IN /\ ECDSAVerify(c[1], c[2], enc, ECPublic(c[1], SkA), EncodeRS(enc, c[1], rs[1], rs[2]), <<1, 2, 3>>)
             /\ ~ECDSAVerify(c[1], c[2], enc, ECPublic(c[1], SkA), EncodeRS(enc, c[1], rs[1], rs[2]), <<1, 2, 4>>)
 
+\* the one-pass judge used by Trace_Sig gives the definitional verdict, and the JDK provider agrees
+CfgA(enc, v) == [alg |-> "ECDSA", curve |-> "P256", hash |-> "SHA256", mgf |-> "", enc |-> enc, saltLen |-> 0,
+                 variant |-> v, id |-> <<1, 2, 3, 4>>]
+ASSUME \A enc \in {"DER", "IEEE_P1363"}, v \in Variants :
+         LET c   == CfgA(enc, v)
+             sig == SigSign(c, SkA, <<>>, <<7, 7>>)
+         IN /\ SigVerify(c, Q256, sig, <<7, 7>>) /\ SigJudge(c, Q256, sig, <<7, 7>>) = [ok |-> TRUE, agree |-> TRUE]
+            /\ ~SigVerify(c, Q256, sig, <<7, 8>>) /\ SigJudge(c, Q256, sig, <<7, 8>>) = [ok |-> FALSE, agree |-> TRUE]
+            /\ (v # "NO_PREFIX" => ~SigVerify(c, Q256, Tail(sig), <<7, 7>>) /\ ~SigJudge(c, Q256, Tail(sig), <<7, 7>>).ok)
+            /\ (v = "LEGACY") = SigVerify([c EXCEPT !.variant = "CRUNCHY"], Q256, sig, <<7, 7, 0>>)
+\* Wycheproof ecdsa_secp256r1_sha256 #350 (x_R >= n): valid by the standard, rejected by the JDK 17 provider -
+\* the documented deviation ProviderAgrees tolerates
+W350pk == H("040ad99500288d466940031d72a9f5445a4d43784640855bf0a69874d2de5fe103c5011e6ef2c42dcd50d5d3d29f99ae6eba2c80c9244f4c5422f0979ff0c3ba5e")
+W350   == H("303502104319055358e8617b0c46353d039cdaab022100ffffffff00000000ffffffffffffffffbce6faada7179e84f3b9cac2fc63254e")
+ASSUME ECDSAVerify("P256", "SHA256", "DER", W350pk, W350, H("313233343030"))
+ASSUME LET d == ParseSig(W350) dg == Hash("SHA256", H("313233343030"))
+       IN ~ECDSAVerifyRS("P256", W350pk, dg, d[2], d[3])
+          /\ ProviderAgrees(Evaluate("P256", W350pk, dg, d[2], d[3]), "P256", W350pk, dg, d[2], d[3])
+
 \* ------------------------------------------------------------------ Ed25519 (RFC 8032 7.1 tests 1, 2)
 ASSUME BytesToHex(EdSign(H("9d61b19deffd5a60ba844af492ec2cc44449c5697b326919703bac031cae7f60"), <<>>)) =
        "e5564300c360ac729086e2cc806e828a84877f1eb8e5d974d873e065224901555fb8821590a33bacc61e39701cf9b46bd25bf5f0595bbe24655141438e7a100b"
